@@ -15,6 +15,7 @@ THEOREMS = [
     "Ts.Location.C05_exists_fits_partial",
     "Ts.Location.C05_disjoint",
     "Ts.Location.C05_manifest_complete",
+    "Ts.Location.C05_safe_keys_iff",
     "Ts.Location.C05_witness_suffix",
     "Ts.Location.C05_witness_dot",
     "Ts.Location.C05_witness_dotdot",
